@@ -173,17 +173,50 @@ def native_replay(scen, n, m, cex):
     return out, ''
 
 
-def run(prop, tier, spec, log):
+def selftest(gen, ns, log):
+    """differential self-test of the encoding: gcc-compiled translation vs the real crate (native, real unwinding)"""
+    bins, err = replayer()
+    if bins is None:
+        return 0, ['replayer does not build: ' + err]
+    total, problems = 0, []
+    for n in ns:
+        exe = os.path.join(BUILD, 'selftest_n%d' % n)
+        rc, out, _ = sh(['gcc', '-O1', '-w', '-DGEN="%s"' % os.path.basename(gen), '-DNN=%d' % n, '-DMM=0', 'selftest.c', '-o', exe], cwd=BUILD, timeout=300)
+        if rc != 0:
+            problems.append('self-test does not compile at N=%d: %s' % (n, out[-300:]))
+            continue
+        rc1, c_out, _ = sh([exe], cwd=BUILD, timeout=600)
+        rc2, r_out, _ = sh([bins['dev'], 'e2-sweep', str(n)], timeout=600)
+        cl, rl = c_out.strip().split('\n'), r_out.strip().split('\n')
+        if rc1 != 0 or rc2 != 0:
+            problems.append('self-test run failed at N=%d (exit %d / %d)' % (n, rc1, rc2))
+            continue
+        total += len(rl)
+        if cl != rl:
+            d = [(a, b) for a, b in zip(cl, rl) if a != b][:2]
+            problems.append('encoding disagrees with the real crate at N=%d on %d of %d cases, e.g. C: %s | native: %s' % (
+                n, sum(1 for a, b in zip(cl, rl) if a != b) + abs(len(cl) - len(rl)), len(rl), d[0][0] if d else '?', d[0][1] if d else '?'))
+    return total, problems
+
+
+def run(prop, tier, spec, log, baseline=None, quiet=False):
     """spec: dict(tag, features, jobs=[(scen, faults, [N..] or [(N,M)..])], unwind)"""
     t0 = time.time()
     part = dict(engine='E2/mir2c+cbmc', config=spec.get('tag', 'std'), queries=0, query_list=[], models=MODELS)
-    res = dict(part=part, violations=[], broken=[], undecided=[], notes=[])
+    res = dict(part=part, violations=[], broken=[], undecided=[], notes=[], failing=set())
     gen, info = dump_and_translate(spec.get('features', ['std', 'alloc']), spec.get('tag', 'std'))
     part['translation'] = {k: v for k, v in info.items() if k != 'functions'}
     if gen is None:
         res['undecided'].append('E2: ' + info.get('error', 'translation failed'))
         return res
     part['functions_translated'] = info['functions']
+    if spec.get('selftest', True):
+        n_cases, problems = selftest(gen, [0, 1, 2, 3] if tier == 'quick' else [0, 1, 2, 3, 4], log)
+        part['traces_validated_against_impl'] = n_cases
+        part['selftest'] = '%d concrete cases (operation x layout x argument x fault) identical between the gcc-compiled translation and the real crate' % n_cases
+        for pb in problems:
+            res['broken'].append('E2 self-test: ' + pb)
+        log('-- E2 self-test: %d cases compared with the real crate, %d problems' % (n_cases, len(problems)))
     jobs = []
     for (scen, faults, caps) in spec['jobs'][tier]:
         for c in caps:
@@ -235,6 +268,16 @@ def run(prop, tier, spec, log):
         q['status'] = 'fail'
         q['failed'] = ['%s (line %d)' % (p[2], p[1]) for p in failed[:5]]
         part['query_list'].append(q)
+        fkeys = set((j['scen'], j['n'], j['m'], j['faults'], p[2]) for p in failed)
+        res['failing'] |= fkeys
+        if quiet:
+            continue
+        if baseline is not None:
+            if fkeys <= baseline:
+                res['notes'].append('E2 %s fails identically in the baseline configuration: equal behaviour, not a matter of this property' % key)
+                q['status'] = 'pass'
+                continue
+            failed = [p for p in failed if (j['scen'], j['n'], j['m'], j['faults'], p[2]) not in baseline]
         if res['violations'] and replayed >= 1 or replayed >= 3:
             res['notes'].append('E2 %s also fails (%s); not replayed' % (key, failed[0][2]))
             continue
